@@ -120,6 +120,13 @@ func (e *effState) writes(fn *ssa.Function) []paramWrite {
 			if _, isB := cc.Value.(*ssa.Builtin); isB {
 				continue
 			}
+			// library functions that modify their slice argument in place
+			if n := callName(cc); isInPlaceMutator(n) && len(cc.Args) > 0 {
+				root, p := accessPath(cc.Args[0])
+				if idx := paramIndex(top, root); idx >= 0 && len(p) > 0 {
+					out = append(out, paramWrite{Param: idx, Path: strings.Join(append(p, "[in place: "+n+"]"), "."), Pos: c.Pos()})
+				}
+			}
 			var callees []*ssa.Function
 			switch {
 			case cc.IsInvoke():
@@ -188,6 +195,16 @@ func (e *effState) writes(fn *ssa.Function) []paramWrite {
 	return dd
 }
 
+func isInPlaceMutator(n string) bool {
+	switch {
+	case strings.HasPrefix(n, "slices.Sort"), strings.HasPrefix(n, "sort."), n == "slices.Reverse",
+		strings.HasPrefix(n, "slices.Compact"), strings.HasPrefix(n, "slices.Delete"), strings.HasPrefix(n, "slices.Insert") && false,
+		n == "builtin.copy", n == "builtin.clear", strings.HasPrefix(n, "maps.Copy"), strings.HasPrefix(n, "maps.DeleteFunc"):
+		return true
+	}
+	return false
+}
+
 func isValueParam(fn *ssa.Function, idx int) bool {
 	if idx >= len(fn.Params) {
 		return false
@@ -238,6 +255,7 @@ func checkC17(w *World, r *Report) {
 	eff := newEff(w)
 	c17ReadOnly(w, r, eff, mts, "Execute", "C17.1", "executing a mechanism writes no memory owned by the mechanism (its fields and what is reachable through them)")
 	c17ReadOnly(w, r, eff, mts, "WithConfig", "C17.2", "creating a rule-specific variant writes no memory owned by the prototype")
+	c17DecodeTarget(w, r, mts)
 	c17Complete(w, r, mts)
 	c17Factory(w, r)
 }
@@ -277,6 +295,56 @@ func c17ReadOnly(w *World, r *Report, eff *effState, mts []*types.Named, method,
 				msg += ": the catalogue prototype is changed for every rule using it"
 			}
 			r.Ob(ri, k, pw.Pos, false, msg)
+		}
+	}
+}
+
+// c17DecodeTarget: the struct a rule-level override is decoded into must not be pre-populated with
+// slices / maps / pointers of the prototype: the decoder writes into them in place.
+func c17DecodeTarget(w *World, r *Report, mts []*types.Named) {
+	ri := r.Rule("C17.2b", 8, "the decode target of a rule-level override holds no reference to the prototype's memory")
+	for _, t := range mts {
+		fn := w.Method(t, "WithConfig")
+		if fn == nil || fn.Blocks == nil {
+			continue
+		}
+		recv := fn.Params[0]
+		for _, c := range callsIn(fn) {
+			callee := c.Common().StaticCallee()
+			if callee == nil || !strings.HasPrefix(strings.ToLower(callee.Name()), "decode") {
+				continue
+			}
+			r.Analysed(w.FnName(fn))
+			ok, msg := true, ""
+			for _, a := range c.Common().Args {
+				al, isAlloc := stripConv(a).(*ssa.Alloc)
+				if !isAlloc {
+					continue
+				}
+				if refs := al.Referrers(); refs != nil {
+					for _, rf := range *refs {
+						fa, isFA := rf.(*ssa.FieldAddr)
+						if !isFA {
+							continue
+						}
+						if fr := fa.Referrers(); fr != nil {
+							for _, u := range *fr {
+								st, isSt := u.(*ssa.Store)
+								if !isSt || st.Addr != ssa.Value(fa) || !reachableAfter(st, c) {
+									continue
+								}
+								switch st.Val.Type().Underlying().(type) {
+								case *types.Slice, *types.Map, *types.Pointer:
+									if root, p := accessPath(st.Val); root == ssa.Value(recv) && len(p) > 0 {
+										ok, msg = false, "the decode target is pre-populated with the prototype's "+strings.Join(p, ".")+": the decoder writes the override into the prototype's memory"
+									}
+								}
+							}
+						}
+					}
+				}
+			}
+			r.Ob(ri, w.FnName(fn)+"|decode-target-fresh", c.Pos(), ok, msg)
 		}
 	}
 }
